@@ -132,8 +132,11 @@ struct KeystoreWorld : World {
         if (c.record) want = modes_ref::isap_encrypt(S.alg, S.key, n, ad, m);
         GuardBuf ct(mlen + 16, (unsigned)mlen, false);
         size_t clen = 0;
+        // a third of the calls work in place (output buffer = input buffer), which the library supports for every cipher
+        bool inplace_e = (sd >> 20) % 3 == 0, inplace_d = (sd >> 24) % 3 == 0;
         if (!decrypt_only) {
-            k_encrypt(S.k, S.alg, ct.p, &clen, mp, mlen, ap, adlen, n.data());
+            if (inplace_e && mlen) { memcpy(ct.p, mp, mlen); k_encrypt(S.k, S.alg, ct.p, &clen, ct.p, mlen, ap, adlen, n.data()); if (c.record) c.run->fault("buf.in_place"); }
+            else k_encrypt(S.k, S.alg, ct.p, &clen, mp, mlen, ap, adlen, n.data());
             if (c.record) {
                 if (!ct.intact()) c.run->violation("C12", "canary", site + ".encrypt", "ciphertext canary damaged");
                 c.run->fold(ct.p, mlen + 16);
@@ -151,9 +154,12 @@ struct KeystoreWorld : World {
         Bytes x(ct.p, ct.p + mlen + 16);
         if (tamper == 1) x[(size_t)(sd % x.size())] ^= 0x04;
         if (tamper == 2) x.resize(x.size() - 1 - (size_t)(sd % 16));
-        GuardBuf pt(x.size() >= 16 ? x.size() - 16 : 0, 3, false);
+        bool dip = inplace_d && x.size() >= 16;
+        GuardBuf pt(dip ? x.size() : x.size() >= 16 ? x.size() - 16 : 0, 3, false);
         size_t ml = 0;
-        int r = k_decrypt(S.k, S.alg, pt.p, &ml, x.data(), x.size(), ap, adlen, n.data());
+        int r;
+        if (dip) { memcpy(pt.p, x.data(), x.size()); r = k_decrypt(S.k, S.alg, pt.p, &ml, pt.p, x.size(), ap, adlen, n.data()); }
+        else r = k_decrypt(S.k, S.alg, pt.p, &ml, x.data(), x.size(), ap, adlen, n.data());
         if (c.record) {
             c.run->fold_u64((uint64_t)(int64_t)r);
             if (!pt.intact()) c.run->violation("C12", "canary", site + ".decrypt", "plaintext canary damaged");
@@ -180,9 +186,11 @@ struct KeystoreWorld : World {
         for (int rep = 0; rep < 2; ++rep) {
             GuardBuf &o = rep ? ct2 : ct;
             size_t &l = rep ? cl2 : cl;
-            if (alg == 0) ascon128_siv_encrypt(o.p, &l, mp, mlen, ap, adlen, n.data(), k.data());
-            else if (alg == 1) ascon128a_siv_encrypt(o.p, &l, mp, mlen, ap, adlen, n.data(), k.data());
-            else ascon80pq_siv_encrypt(o.p, &l, mp, mlen, ap, adlen, n.data(), k.data());
+            const uint8_t *src = mp;
+            if (rep == 1 && mlen && (sd >> 20) % 2 == 0) { memcpy(o.p, mp, mlen); src = o.p; } // the second computation in place
+            if (alg == 0) ascon128_siv_encrypt(o.p, &l, src, mlen, ap, adlen, n.data(), k.data());
+            else if (alg == 1) ascon128a_siv_encrypt(o.p, &l, src, mlen, ap, adlen, n.data(), k.data());
+            else ascon80pq_siv_encrypt(o.p, &l, src, mlen, ap, adlen, n.data(), k.data());
         }
         if (!c.record) return;
         std::string site = siv_name[alg];
@@ -193,12 +201,15 @@ struct KeystoreWorld : World {
             c.run->violation("C06", "siv_matches_documented_construction", site + ".encrypt", fmt("mlen=%zu adlen=%zu: output differs from the two-pass reference model", mlen, adlen));
         if (cl != cl2 || memcmp(ct.p, ct2.p, mlen + 16) != 0)
             c.run->violation("C06", "siv_equal_inputs_equal_outputs", site + ".encrypt", fmt("mlen=%zu adlen=%zu", mlen, adlen));
-        GuardBuf pt(mlen, 1, false);
+        bool dip = (sd >> 24) % 2 == 0;
+        GuardBuf pt(dip ? mlen + 16 : mlen, 1, false);
+        const uint8_t *csrc = ct.p;
+        if (dip) { memcpy(pt.p, ct.p, mlen + 16); csrc = pt.p; }
         size_t ml = 0;
         int r;
-        if (alg == 0) r = ascon128_siv_decrypt(pt.p, &ml, ct.p, mlen + 16, ap, adlen, n.data(), k.data());
-        else if (alg == 1) r = ascon128a_siv_decrypt(pt.p, &ml, ct.p, mlen + 16, ap, adlen, n.data(), k.data());
-        else r = ascon80pq_siv_decrypt(pt.p, &ml, ct.p, mlen + 16, ap, adlen, n.data(), k.data());
+        if (alg == 0) r = ascon128_siv_decrypt(pt.p, &ml, csrc, mlen + 16, ap, adlen, n.data(), k.data());
+        else if (alg == 1) r = ascon128a_siv_decrypt(pt.p, &ml, csrc, mlen + 16, ap, adlen, n.data(), k.data());
+        else r = ascon80pq_siv_decrypt(pt.p, &ml, csrc, mlen + 16, ap, adlen, n.data(), k.data());
         if (r != 0 || ml != mlen || (mlen && memcmp(pt.p, m.data(), mlen) != 0))
             c.run->violation("C06", "siv_round_trip", site + ".decrypt", fmt("mlen=%zu adlen=%zu result=%d", mlen, adlen, r));
         c.run->state(fmt("siv/%d/%s/%s", alg, mlen == 0 ? "0" : mlen < 8 ? "<" : mlen % 8 ? ">" : "k", adlen == 0 ? "0" : adlen % 8 ? ">" : "k"));
